@@ -12,7 +12,7 @@ HFUNCS = {}
 class HFunc:
     def __init__(self, file, qual, args, requires=(), modifies=(), ensures=(), raises_when=None, raises_ensures=(),
                  raises_only_when=None, invariants=None, uses=(), props=(), returns=None, notes='', ghost=None, axioms=(),
-                 callee=None, list_attrs=(), dict_attrs=(), timeout=None, decreases=None, varargs=None, refs=(), oid_suffix='', numeric_int=False, axiom_sets=None, cases=()):
+                 callee=None, list_attrs=(), dict_attrs=(), timeout=None, decreases=None, varargs=None, refs=(), oid_suffix='', numeric_int=False, axiom_sets=None, cases=(), opaque_mul=False):
         self.file = file; self.qual = qual; self.args = list(args)
         self.requires = list(requires); self.modifies = list(modifies); self.ensures = list(ensures)
         self.raises_when = raises_when            # condition (pre-state) under which the function must raise ("iff")
@@ -27,6 +27,7 @@ class HFunc:
         self.varargs = varargs                    # *args bound to a tuple of this many arbitrary values (one proof per arity)
         self.refs = list(refs)                    # arguments that are object references (new objects differ from them)
         self.oid_suffix = oid_suffix; self.numeric_int = numeric_int
+        self.opaque_mul = opaque_mul              # products of two symbolic terms abstracted to an uninterpreted function with sign / unit facts
         self.cases = list(cases)                  # proof by cases on these pre-state conditions (all polarity combinations), tried when the direct proof fails
         self.axiom_sets = axiom_sets              # smaller axiom selections tried first (quantifier instantiation stays cheap); the full list is always tried last
 
@@ -84,7 +85,11 @@ def gen(f):
     obls = []
     hyps = hy + ex.assumptions
     for o in ex.obligations:
-        obls.append(('%s@L%s' % (o.kind, (o.lineno or 0) - fdef.lineno), hyps + [o.pc], o.goal))
+        # loop obligations are identified by the loop's ordinal (stable under edits elsewhere in the function); the others by
+        # their line offset inside the function
+        tag = o.kind if o.kind.startswith('loop') else '%s@L%s' % (o.kind, (o.lineno or 0) - fdef.lineno)
+        if any(t == tag for t, _, _ in obls): tag = '%s@L%s' % (o.kind, (o.lineno or 0) - fdef.lineno)
+        obls.append((tag, hyps + [o.pc], o.goal))
     when = ex.truth(ex.eval_spec(f.raises_when, old)) if f.raises_when is not None else None
     only = ex.truth(ex.eval_spec(f.raises_only_when, old)) if f.raises_only_when is not None else None
     for k, o in enumerate(raises):
@@ -220,7 +225,7 @@ def verify(f, timeout_s=20):
     for (cl, hy0, goal) in obls:
         for aset in meta['axiom_sets']:
             hy = aset + hy0
-            v = smt.prove(hy, goal, mode='int', timeout_s=f.timeout or timeout_s, use_cvc5=False)
+            v = smt.prove(hy, goal, mode='int', timeout_s=f.timeout or timeout_s, use_cvc5=False, opaque_mul=f.opaque_mul)
             if v.status == 'proved': break
         if v.status != 'proved' and goal.op == 'forall':
             v2 = case_split(hy, goal, f.timeout or timeout_s)
@@ -230,7 +235,7 @@ def verify(f, timeout_s=20):
             tc = time.time(); ok = True
             for combo in itertools.product((True, False), repeat=len(meta['cases'])):
                 extra = [c if pos else ir.not_(c) for c, pos in zip(meta['cases'], combo)]
-                vc = smt.prove(hy + extra, goal, mode='int', timeout_s=f.timeout or timeout_s, use_cvc5=False)
+                vc = smt.prove(hy + extra, goal, mode='int', timeout_s=f.timeout or timeout_s, use_cvc5=False, opaque_mul=f.opaque_mul)
                 if vc.status != 'proved': ok = False; break
             if ok:
                 v = smt.Verdict('proved', 'z3', time.time() - tc, mode='int', reason='by cases on %d pre-state conditions' % len(meta['cases']))
